@@ -683,17 +683,20 @@ def cacheAddVals (cur : List (Nat × Int)) (upd : List (Nat × Int)) : List (Nat
       else acc
     | none => (aset kv.1 kv.2 acc.1, true)) (cur, false)
 
-/-- caches.go: cacheMsgs.commit — prune entries `b ≤ block − MaxNonce` from the front of the index. -/
+/-- caches.go: cacheMsgs.commit — prune entries `b ≤ block − MaxNonce` from the front of the index.
+The bound is `oldest` = `block − MaxNonce` when `block > MaxNonce`, else 0 (the guard added by the
+F-14d repair; before it the uint64 subtraction wrapped on a chain younger than MaxNonce and the
+commit erased the whole log — `commitMsgsPreFix` in Proofs/OracleRestart.lean). -/
 def commitMsgs (s : Store) (maxNonce block : Nat) (msgs : List ItemM) : Store :=
-  let dropped := s.msgIndex.takeWhile (fun b => !(b > wrapSub64 block maxNonce))
-  let kept := s.msgIndex.dropWhile (fun b => !(b > wrapSub64 block maxNonce))
+  let dropped := s.msgIndex.takeWhile (fun b => !(b > block - maxNonce))
+  let kept := s.msgIndex.dropWhile (fun b => !(b > block - maxNonce))
   let rm := dropped.foldl (fun l b => adel b l) s.recentMsgs
   { s with recentMsgs := aset block msgs rm, msgIndex := kept ++ [block] }
 
 /-- caches.go: cacheParams.commit — prunes `b < block − MaxNonce`; keeps the last index entry when
 everything would go (the stored params of that entry are nevertheless removed). -/
 def commitParams (s : Store) (maxNonce block : Nat) (p : Params) : Store :=
-  let dropped := s.paramsIndex.takeWhile (fun b => !(b ≥ wrapSub64 block maxNonce))
+  let dropped := s.paramsIndex.takeWhile (fun b => !(b ≥ block - maxNonce))
   let rm := dropped.foldl (fun l b => adel b l) s.recentParams
   let i := dropped.length
   let i := if i > 0 && i = s.paramsIndex.length then i - 1 else i
@@ -767,7 +770,7 @@ def recacheAgc (s : State) : Option (Option State) :=
   | some h =>
     if s.store.recentParams.length = 0 then none
     else
-      let maxNonce0 := s.store.params.maxNonce   -- common.MaxNonce still holds the last value set
+      let maxNonce0 := s.store.params.maxNonce   -- k.GetParams(ctx).MaxNonce (F-14f repair; before it: the package variable common.MaxNonce, 3 in a fresh process)
       let to := s.height
       let from0 : Int := (s.height : Int) - maxNonce0 + 1
       let frm : Int := if (h : Int) ≥ from0 then h + 1 else from0
@@ -781,7 +784,15 @@ def recacheAgc (s : State) : Option (Option State) :=
           let best := s.store.recentParams.foldl (fun (acc : Option (Nat × Params)) kv =>
             match acc with | some x => if kv.1 > x.1 then some kv else acc | none => some kv) none
           match best with
-          | some (_, p) => some ({ g with params := some p }, some p)
+          | some (_, p) =>
+            -- no block is replayed; the rounds are rebuilt as EndBlock of the last committed block left
+            -- them (F-14c repair): prepare(to−2), seal(to−1, forced iff the validator set changed in
+            -- that block), prepare(to−1)
+            let g := { g with params := some p }
+            let (g, _) := g.prepareRound (to - 2)
+            let g := (g.sealRound p (to - 1) (decide (h + 1 = to))).1
+            let (g, _) := g.prepareRound (to - 1)
+            some (g, some p)
           | none => some (g, none)
         else
           let frmN := frm.toNat
